@@ -98,14 +98,14 @@ def r1(ctx):
 @rule("C10", "R2", "FLOW", "multi-series stacking is the row-wise concatenation of the individual stackings")
 def r2(ctx):
     from . import c07
-    c07.r1(ctx)
+    ctx.sub(c07.r1)
 
 
 @rule("C10", "R3", "TERM", "split by cumulative stacked lengths and padding with W-1 markers restore one list per series", floor=3)
 def r3(ctx):
     from . import c04
-    c04.r1(ctx)
-    c04.r3(ctx)
+    ctx.sub(c04.r1)
+    ctx.sub(c04.r3)
 
 
 @rule("C10", "R4", "PURE", "stacking, splitting and padding depend on their arguments only (no module-level tables or caches)", floor=1)
